@@ -29,29 +29,85 @@ Proof.
   destruct (c17_key_injective _ _ _ _ _ _ _ H1 H2 K1 K2) as [_ Hci]. exact (Hne Hci).
 Qed.
 
-(* VI models: none of n_chains, chain_index, n_burnin, thin is read - the whole run, generator included, is the same *)
-Theorem c17_vi_ignores_chain seed nc ci b t nc' ci' b' t' n len0 ret :
-  sample 1 seed nc ci b t n len0 ret = sample 1 seed nc' ci' b' t' n len0 ret.
-Proof. reflexivity. Qed.
+(* ---- VI models, REPAIRED code (fix PENDING): the generator is derived as in the MCMC branch ---- *)
 
-(* the key a VI model is handed is (seed, []) = default_rng(seed) *)
-Theorem c17_vi_handed_key seed nc ci b t n len0 ret tr len :
-  sample 1 seed nc ci b t n len0 ret = Ok (tr, len) -> handed_key tr = Some (seed, []).
+Lemma add_all_records N : forall (m : nat) len r, add_all N m len = Ok r -> forall e, In e (fst r) -> e = Record.
 Proof.
-  unfold sample. cbn [Z.eqb]. unfold sample_vi. destruct (seed <? 0); [discriminate|].
-  destruct (add_all n (ret) len0) as [r|e]; cbn [res_bind]; [|discriminate].
-  intros H. injection H as <- _. reflexivity.
+  induction m as [|m IH]; intros len r H e He; cbn [add_all] in H.
+  - injection H as <-. destruct He.
+  - destruct (N <=? len); [discriminate|].
+    destruct (add_all N m (len + 1)) as [r2|e2] eqn:E2; cbn [res_bind] in H; [|discriminate].
+    injection H as <-. cbn [fst] in He. destruct He as [<-|He]; [reflexivity|]. eapply IH; eassumption.
 Qed.
 
-(* REFUTED for VI models: the clause "a different stream for every other chain index", inside the quantifier
+(* a successful VI run is Reset, SetRng (rng_key seed n_chains chain_index), one SampleVI n, then only records *)
+Theorem c17_vi_key_in_trace seed nc ci b t n len0 ret tr len :
+  sample 1 seed (Some nc) (Some ci) b t n len0 ret = Ok (tr, len) ->
+  exists k rest, rng_key seed nc ci = Ok k /\ tr = Reset :: SetRng (fst k) (snd k) :: SampleVI n :: rest /\
+                 forall e, In e rest -> e = Record.
+Proof.
+  unfold sample. cbn [Z.eqb]. unfold sample_vi.
+  destruct (rng_key seed nc ci) as [k|e]; cbn [res_bind]; [|discriminate].
+  destruct (add_all n ret len0) as [r|e] eqn:E; cbn [res_bind]; [|discriminate].
+  intros H. injection H as <- _. exists k, (fst r). split; [reflexivity|]. split; [reflexivity|].
+  exact (add_all_records _ _ _ _ E).
+Qed.
+
+Lemma c17_vi_handed_key seed nc ci b t n len0 ret tr len :
+  sample 1 seed (Some nc) (Some ci) b t n len0 ret = Ok (tr, len) ->
+  exists k, rng_key seed nc ci = Ok k /\ handed_key tr = Some k.
+Proof.
+  intros H. destruct (c17_vi_key_in_trace _ _ _ _ _ _ _ _ _ _ H) as (k & rest & Hk & -> & _).
+  exists k. split; [exact Hk|]. cbn [handed_key]. now destruct k.
+Qed.
+
+(* two successful VI runs with different chain indices below n_chains hand over different keys (PARTIAL: keys, not streams),
+   whatever n, the holders and the numbers of samples the model returns are *)
+Theorem c17_vi_chains_distinct seed nc ci1 ci2 b1 t1 n1 l1 r1 b2 t2 n2 l2 r2 tr1 len1 tr2 len2 :
+  0 <= ci1 < nc -> 0 <= ci2 < nc -> ci1 <> ci2 ->
+  sample 1 seed (Some nc) (Some ci1) b1 t1 n1 l1 r1 = Ok (tr1, len1) ->
+  sample 1 seed (Some nc) (Some ci2) b2 t2 n2 l2 r2 = Ok (tr2, len2) ->
+  handed_key tr1 <> handed_key tr2.
+Proof.
+  intros H1 H2 Hne R1 R2.
+  destruct (c17_vi_handed_key _ _ _ _ _ _ _ _ _ _ R1) as (k1 & K1 & ->).
+  destruct (c17_vi_handed_key _ _ _ _ _ _ _ _ _ _ R2) as (k2 & K2 & ->).
+  intros E. injection E as E. subst k2.
+  destruct (c17_key_injective _ _ _ _ _ _ _ H1 H2 K1 K2) as [_ Hci]. exact (Hne Hci).
+Qed.
+
+(* the same triple gives a VI model and an MCMC model the same key *)
+Theorem c17_vi_key_as_mcmc seed nc ci b t n len0 ret tr len b' t' n' len0' tr' len' :
+  sample 1 seed (Some nc) (Some ci) b t n len0 ret = Ok (tr, len) ->
+  sample 0 seed (Some nc) (Some ci) (Some b') (Some t') n' len0' 0%nat = Ok (tr', len') ->
+  handed_key tr = handed_key tr'.
+Proof.
+  intros R1 R2.
+  destruct (c17_vi_handed_key _ _ _ _ _ _ _ _ _ _ R1) as (k1 & K1 & ->).
+  destruct (c17_handed_key_mcmc _ _ _ _ _ _ _ _ _ R2) as (k2 & K2 & ->).
+  rewrite K1 in K2. now injection K2 as ->.
+Qed.
+
+(* n_burnin and thin are still not read for a VI model: the whole run is the same for every value of them *)
+Theorem c17_vi_ignores_schedule seed nc ci b t b' t' n len0 ret :
+  sample 1 seed nc ci b t n len0 ret = sample 1 seed nc ci b' t' n len0 ret.
+Proof. reflexivity. Qed.
+
+(* ---- the PRE-REPAIR variant (sample_pre_repair: default_rng(seed) for every chain) ----
+   REFUTED there: the clause "a different stream for every other chain index", inside the quantifier
    (seed 0, two chains, indices 0 and 1, one sample): both runs succeed and hand over the same key *)
 Theorem c17_vi_streams_distinct_refuted :
   exists seed nc ci1 ci2 n tr1 len1 tr2 len2,
     0 <= seed /\ 1 <= n /\ 0 <= ci1 < nc /\ 0 <= ci2 < nc /\ ci1 <> ci2 /\
-    sample 1 seed (Some nc) (Some ci1) (Some 0) (Some 1) n 0 (Z.to_nat n) = Ok (tr1, len1) /\
-    sample 1 seed (Some nc) (Some ci2) (Some 0) (Some 1) n 0 (Z.to_nat n) = Ok (tr2, len2) /\
+    sample_pre_repair 1 seed (Some nc) (Some ci1) (Some 0) (Some 1) n 0 (Z.to_nat n) = Ok (tr1, len1) /\
+    sample_pre_repair 1 seed (Some nc) (Some ci2) (Some 0) (Some 1) n 0 (Z.to_nat n) = Ok (tr2, len2) /\
     handed_key tr1 = handed_key tr2.
 Proof.
   exists 0, 2, 0, 1, 1, [Reset; SetRng 0 []; SampleVI 1; Record], 1, [Reset; SetRng 0 []; SampleVI 1; Record], 1.
   repeat split; try lia; vm_compute; try reflexivity; discriminate.
 Qed.
+
+(* the pre-repair variant differs from the repaired model only for VI models *)
+Lemma c17_pre_repair_only_vi kind seed nc ci b t n len0 ret :
+  kind <> 1 -> sample_pre_repair kind seed nc ci b t n len0 ret = sample kind seed nc ci b t n len0 ret.
+Proof. intros H. unfold sample_pre_repair. destruct (kind =? 1) eqn:E; [lia|reflexivity]. Qed.
